@@ -367,6 +367,9 @@ def run(chk: Check, eng: Engine) -> None:
     from .c11 import gethash_rule
 
     gethash_rule(chk, eng, "R07-g")
+    chk.rule("R07-l", "quantifiers write their bound variable only into dictionaries they own (copies made in the same call)", floor=4)
+    from . import common_fitness as _cfo
+    _cfo.owned_binding_rule(chk, eng, "R07-l")
     chk.rule("R07-k", "scope and local variables received by a constraint / search method are passed on to every family method that takes them", floor=20)
     cf.context_forwarding_rule(chk, eng, "R07-k")
     chk.rule("R07-j", "a comparison that does not hold is never scored as satisfied (its score excludes 1.0 in float arithmetic; the verdict is `all(score == 1.0)`)", floor=3)
@@ -398,6 +401,7 @@ _EX = "src/fandango/constraints/exists.py"
 _IMP = "src/fandango/constraints/implication.py"
 _S = "src/fandango/language/search.py"
 MUTANTS = [
+    M("exists-binds-into-callers-scope", "src/fandango/constraints/exists.py", "        scope = dict(scope or {})\n        local_variables = dict(local_variables or {})\n", "        scope = scope or dict()\n        local_variables = local_variables or dict()\n", "R07-l"),
     M("forall-domain-without-scope", "src/fandango/constraints/forall.py", "        for container in self.search.quantify(tree, scope=scope):\n", "        for container in self.search.quantify(tree):\n", "R07-k"),
     M("implication-consequent-without-locals", "src/fandango/constraints/implication.py", "            fitness = copy(self.consequent.fitness(tree, scope, local_variables))", "            fitness = copy(self.consequent.fitness(tree, scope))", "R07-k"),
     M("base-quantify-drops-scope", "src/fandango/language/search.py", "        return self.find(tree, scope, population)\n", "        return self.find(tree)\n", "R07-k"),
